@@ -44,6 +44,18 @@ impl Monitor for MupMonitor {
 				let st = self.st.entry(n).or_default();
 				log[st.cursor..].to_vec()
 			};
+			// (d) the asynchronous persister: let everything pending complete, judge, collect
+			{
+				let a = &sh.asynchronous;
+				a.pump(true);
+				a.judge(None, "A2-still-recoverable");
+				for (rule, sig, detail) in a.findings.lock().unwrap().drain(..) {
+					v.violation("C19", &rule, &sig, detail);
+				}
+				for (k, n) in std::mem::take(&mut *a.counters.lock().unwrap()) {
+					v.rep.add(k, n);
+				}
+			}
 			let total_new = ops.len();
 			// judge at most ~40 crash points per quiescent point, always including the latest
 			let stride = 1 + total_new / 40;
